@@ -30,3 +30,30 @@ Theorem C01_nesting_decisions : forall m : msg,
   (has_alt m = true <-> (2 <= length (m_parts m))%nat).
 Proof. exact nesting_decisions. Qed.
 Print Assumptions C01_nesting_decisions.
+
+(* quoted-printable parts: text whose line breaks are CRLF or LF (every CR directly followed by
+   LF) decodes, per RFC 2045 6.7, to exactly the supplied text with its line breaks in canonical
+   CRLF form (the writer leaves a final unterminated line unterminated; the decoder adds no line
+   break after the last piece, so no tail is involved) *)
+From VerifProofs Require Import QPRoundtripProofs.
+
+Theorem C01_qp_body_roundtrip : forall content : bytes,
+  wf_bytes content = true -> no_bare_cr content = true ->
+  qp_decode (qp_body content) = Some (canon_crlf content).
+Proof. exact qp_body_roundtrip. Qed.
+Print Assumptions C01_qp_body_roundtrip.
+
+(* the same for any chunking of the producer's writes *)
+Theorem C01_qp_roundtrip_chunked : forall chunks : list bytes,
+  wf_bytes (concat chunks) = true -> no_bare_cr (concat chunks) = true ->
+  qp_decode (qp_run chunks) = Some (canon_crlf (concat chunks)).
+Proof. exact qp_roundtrip_chunked. Qed.
+Print Assumptions C01_qp_roundtrip_chunked.
+
+(* the hypothesis no_bare_cr is needed: Go's quotedprintable.Writer keeps its pending-CR flag
+   across an encoded byte, so CR <byte >= 128> LF loses the LF (witness [13; 195; 10]) — a stdlib
+   quirk on input that is not CRLF/LF text, outside the property's quantifier *)
+Theorem C01_qp_bare_cr_refuted : exists c : bytes,
+  wf_bytes c = true /\ qp_decode (qp_body c) <> Some (canon_crlf c).
+Proof. exact qp_bare_cr_refuted. Qed.
+Print Assumptions C01_qp_bare_cr_refuted.
